@@ -114,7 +114,19 @@ def run_task(task):
         elif task["kind"] == "bounded":
             import importlib
             mod = importlib.import_module(task["module"])
-            out["bounded"] = getattr(mod, task["name"])(task)
+            try:
+                out["bounded"] = getattr(mod, task["name"])(task)
+            except Exception as e:
+                from rt.drivers import harness_fault, write_replay
+                if harness_fault(e):
+                    raise
+                # the code under test raised where the monitor's contract allows no exception: that is a finding, with the traceback as replay
+                rp = write_replay(task["prop"], f"exception_{task['name']}.json",
+                                  dict(kind="exception", property=task["prop"], monitor=task["name"], module=task["module"],
+                                       clause="no_exception_from_the_code_under_test", detail=traceback.format_exc()[-3000:], task={k: v for k, v in task.items() if isinstance(v, (str, int, float))}))
+                out["bounded"] = dict(label=task.get("label", task["name"]), bound="aborted by an exception raised inside the code under test",
+                                      evaluations=1, distinct_nontrivial=1,
+                                      violations=[dict(what=f"no_exception_from_the_code_under_test: {type(e).__name__}: {e}"[:300], replay=rp)])
         else:
             raise ValueError(task["kind"])
     except Exception:
